@@ -433,3 +433,26 @@ PROPS["C14"] = dict(
                 "timestamps so that only what the statement promises is demanded."),
     level_note="Trusted: tap placement; events in the one-slot hand-off when cancel is called are treated as MAY (the statement does not pin 'not yet cancelled' to call or effect time).",
 )
+
+PROPS["C15"] = dict(
+    race=True,
+    shards={"quick": 8, "thorough": 16},
+    gomaxprocs=6,
+    level="exploration",
+    design_ref="DESIGN.md §2 C15",
+    technique="runtime monitor: Close started at every verif tap point of a gated explicit / announce-triggered sync; event-log checks against the first Close return; hang rule on every post-close API call; goroutine-dump leak check",
+    rule=("an explicit or announce-triggered sync of a 3-block chain is held at one of the tap points (stop read, lock taken, first block "
+          "request at the publisher, sync exit, event emission, distribution; for announcements also receive, swap, goroutine entry, "
+          "after the async lock, after the semaphore, pending message taken) or not at all; 1..4 goroutines call Close while 0..3 further "
+          "announcements of another publisher, listener cancellation and seeded tap delays race; the sync is released after Close has begun. "
+          "Then: Close returned only after the running explicit sync returned (which must not fail because of the shutdown) and every handling "
+          "goroutine exited; no hook call, store write, event emission or forwarding has a logical timestamp after the first Close return; all "
+          "listener channels are closed; every entry point (SyncAdChain, SyncEntries, SyncOneEntry, SyncHAMTEntries, Announce, OnSyncFinished, "
+          "cancel functions, Get/SetLatestSync, RemoveHandler, HttpPeerStore, Close) returns on the closed subscriber (hang rule); no goroutine "
+          "with a dagsync/announce frame remains. distinct_nontrivial = distinct (sync kind, close point, closers, racing activity) tuples."),
+    floors={"quick": {"post_close_calls": 800, "close_point_reached_sync.enter": 5, "close_point_reached_front": 5, "close_point_reached_pending.taken": 2, "closers_4": 5}},
+    watchdog_s={"quick": 900, "thorough": 7200},
+    level_text=("Exploration over schedules: Close is started at every instrumented point of a running sync; what happens after its first return "
+                "is read from the event log and goroutine dumps; blocking is decided by the hang rule."),
+    level_note="Trusted: tap placement; the hang rule; goroutine dumps filtered to dagsync/announce frames (publisher-side server goroutines of the harness are excluded).",
+)
